@@ -240,6 +240,10 @@ struct Harness
     cfg.soSndBuf = C.sndbuf; cfg.soRcvBuf = C.rcvbuf;
     cfg.ioReadChunk = size_t(C.iochunk);
     cfg.maxWriteQueue = C.mwq;
+    // timeouts and the idle GC are not part of this property: keep them out of reach of a loaded machine
+    cfg.idleTimeout = std::chrono::seconds(3600);
+    cfg.connectTimeout = std::chrono::milliseconds(120000);
+    cfg.handshakeTimeout = std::chrono::milliseconds(120000);
     if (C.tls)
     {
       if (C.peerIsServer) { cfg.clientTls.enabled = true; cfg.clientTls.defaultMode = TlsMode::Client; cfg.clientTls.verifyPeer = false; }
@@ -957,6 +961,7 @@ int runCut(const vf::Args &a)
     }
     uint64_t short1 = tx ? sp.shortenedSends.load() : sp.shortenedRecvs.load();
     ran++;
+    if (!R.keysSeen.empty()) stop = true; // one witness per process is enough; a broken stream makes every later case wait for its watchdog
     if (short1 > short0)
     {
       nontrivial++;
